@@ -278,7 +278,7 @@ class Membrane:
         """
         start_time = time.time()
         content = signal.content
-        content_hash = hashlib.sha256(content.encode()).hexdigest()[:16]
+        content_hash = hashlib.sha256(content.encode("utf-8", "surrogatepass")).hexdigest()[:16]
 
         self._total_filtered += 1
 
